@@ -4,6 +4,7 @@ import (
 	"fmt"
 	"math/rand"
 	"strings"
+	"time"
 
 	ipfslog "berty.tech/go-ipfs-log"
 	"github.com/ipfs/go-cid"
@@ -39,7 +40,7 @@ func registerCases(key string, fn caseFn) {
 	caseFns[key] = fn
 	childFns[key] = func(run *evid.Run, batch, nb int, j *Journal) {
 		total := envInt("VERIF_CASES", 0)
-		for i := batch; i < total; i += nb {
+		for i := batch; i < total && !evid.IsSaturated(); i += nb {
 			fn(run, i, j)
 		}
 	}
@@ -154,7 +155,12 @@ func c09Case(run *evid.Run, i int, j *Journal) {
 			j.Log(map[string]any{"case": i, "where": where})
 			var loaded *ipfslog.IPFSLog
 			var err error
-			load := func() { loaded, err = x.W.Reload(l, loader, x.Writer[s.R], &hx.LoadOpts{Concurrency: conc}) }
+			returned, dump := true, ""
+			load := func() {
+				returned, dump = callHang(x.W.Store, time.Second, func() {
+					loaded, err = x.W.Reload(l, loader, x.Writer[s.R], &hx.LoadOpts{Concurrency: conc})
+				})
+			}
 			if pol == "ungated" {
 				load()
 			} else {
@@ -165,6 +171,16 @@ func c09Case(run *evid.Run, i int, j *Journal) {
 			run.Count("loads_"+loader, 1)
 			d := det("loader", loader, "policy", pol, "concurrency", conc)
 			wit := func() map[string]any { m := histSample(h); m["at"] = where; return m }
+			if !returned {
+				if dump == "" {
+					run.Inconclusive("load did not return within the wall-clock cap while requests were outstanding: " + where)
+				} else {
+					w := wit()
+					w["goroutine_dump"] = clipStr(dump, 8000)
+					run.Violate("C09/load-hung", d, w, "loader never returned although the store is quiescent (%s)", where)
+				}
+				continue
+			}
 			if err != nil || loaded == nil {
 				run.Violate("C09/load-error", d, wit(), "loader failed: %v (%s)", err, where)
 				continue
